@@ -36,4 +36,13 @@ def usedVals {Val : Type} [Inhabited Val] (keep : Nat → Bool) : List Nat → L
 def dropUnused (prog : List PNode) (main : PGraph) : PGraph :=
   ⟨usedArgs prog main, main.results⟩
 
+/-- Executable: argument nodes have no inputs and no bodies. -/
+def argsLeaf : List PNode → Bool
+  | [] => true
+  | n :: older => (n.kind.label?.isSome || n.refs.isEmpty) && argsLeaf older
+
+/-- Executable: `a` is not a formal argument of any body of the program. -/
+def notFormal (prog : List PNode) (a : Nat) : Bool :=
+  prog.all (fun n => n.subs.all (fun g => !g.args.contains a))
+
 end Prog
